@@ -377,6 +377,14 @@ def random_case(draw, tier):
     c["inlets"] = draw(st.lists(st.integers(0, n - 1), max_size=3,
                                 unique=True))
     c["inlet_on_chain"] = draw(st.integers(0, 3))
+    # many inlets (list lengths around 8..12 and 16), in any order, most of
+    # them on chains towards the outlet
+    if n >= 14 and draw(st.integers(0, 3)) == 0:
+        k = draw(st.sampled_from([8, 9, 10, 10, 11, 12, 16]))
+        c["many_inlets"] = [draw(st.floats(0., 1., allow_nan=False))
+                            for _ in range(k)]
+        c["many_order"] = draw(st.sampled_from(["descending", "shuffled",
+                                                "ascending"]))
     c["start"] = draw(st.integers(0, n - 1))
     c["nval"] = draw(st.sampled_from([1, 2, 5, 4 * n + 8]))
     c["geom"] = [draw(st.sampled_from([1., 1., 2., 0.25, 1000., 30.87])),
@@ -426,6 +434,27 @@ def random_oracle(case):
         pick = cand[case["inlet_on_chain"] % len(cand)]
         if pick not in inlets:
             inlets.append(pick)
+    if case.get("many_inlets") and len(m0) > 2:
+        cand = sorted(m0 - {outlet})
+        rest = [c for c in range(n) if c not in m0]
+        picks = []
+        for u in case["many_inlets"]:
+            pool_ = cand if (len(picks) % 4 != 3 or not rest) else rest
+            c_ = pool_[min(int(u * len(pool_)), len(pool_) - 1)]
+            if c_ not in picks and c_ != outlet:
+                picks.append(c_)
+        # (duplicates were skipped: top up to the requested length)
+        for c_ in cand + rest:
+            if len(picks) >= len(case["many_inlets"]):
+                break
+            if c_ not in picks and c_ != outlet:
+                picks.append(c_)
+        if case["many_order"] == "descending":
+            picks.sort(reverse=True)
+        elif case["many_order"] == "ascending":
+            picks.sort()
+        inlets = picks
+        labels.add(f"inlets:{len(picks)}:{case['many_order']}")
     nt = check_area(ca, fd, down, outlet, inlets, labels)
     check_reuse(ca, fd, down, case, labels)
     check_river(g, fd, down, case["start"], case["nval"], labels)
